@@ -252,6 +252,15 @@ pub struct PagingModel {
     /// other response controls attached to every SearchResultDone
     pub other_ctrls: Vec<Ctl>,
     pub page_delay_ms: u64,
+    /// sizes of the first pages of every search, overriding the requested size (0 = an empty page that still carries a cookie)
+    #[serde(default)]
+    pub page_sizes: Vec<usize>,
+    /// after the last entry the server still hands out a cookie; the page after it is empty with an empty cookie
+    #[serde(default)]
+    pub extra_empty_last_page: bool,
+    /// the server never answers the request for this page (0-based) of any search
+    #[serde(default)]
+    pub stall_at_page: Option<usize>,
 }
 
 #[derive(Clone, Debug, Default, PartialEq, Serialize, Deserialize)]
